@@ -11,15 +11,13 @@ Programs2 == {pr \in [deps : {D2none, D2dep, D2cyc}, cache : [{"a", "b"} -> BOOL
                       params : [{"p1", "p2"} -> L2]] : Rank2(pr.params["p1"]) <= Rank2(pr.params["p2"])}
 \* ---- 3 resources, 3 invocations
 D3chain == [a |-> <<>>, b |-> <<"a">>, c |-> <<"b">>]
-D3fan == [a |-> <<>>, b |-> <<"a">>, c |-> <<"a">>]
-D3join == [a |-> <<>>, b |-> <<>>, c |-> <<"a", "b">>]
 D3dia == [a |-> <<>>, b |-> <<"a">>, c |-> <<"b", "a">>]
 D3cyc == [a |-> <<"c">>, b |-> <<"a">>, c |-> <<"b">>]
 D3part == [a |-> <<>>, b |-> <<"c">>, c |-> <<"b">>]
-A3 == {[a |-> TRUE, b |-> TRUE, c |-> TRUE], [a |-> TRUE, b |-> FALSE, c |-> TRUE], [a |-> TRUE, b |-> TRUE, c |-> FALSE]}
-L3 == {<<"a">>, <<"b">>, <<"c">>, <<"c", "a">>, <<"a", "c">>}
-Rank3(l) == IF l = <<"a">> THEN 1 ELSE IF l = <<"b">> THEN 2 ELSE IF l = <<"c">> THEN 3 ELSE IF l = <<"c", "a">> THEN 4 ELSE 5
-Programs3 == {pr \in [deps : {D3chain, D3fan, D3join, D3dia, D3cyc, D3part}, cache : [{"a", "b", "c"} -> BOOLEAN],
+A3 == {[a |-> TRUE, b |-> TRUE, c |-> TRUE], [a |-> TRUE, b |-> FALSE, c |-> TRUE]}
+L3 == {<<"a">>, <<"b">>, <<"c">>, <<"c", "a">>}
+Rank3(l) == IF l = <<"a">> THEN 1 ELSE IF l = <<"b">> THEN 2 ELSE IF l = <<"c">> THEN 3 ELSE 4
+Programs3 == {pr \in [deps : {D3chain, D3dia, D3cyc, D3part}, cache : [{"a", "b", "c"} -> BOOLEAN],
                       asyncf : A3, params : [{"p1", "p2", "p3"} -> L3]] :
                  Rank3(pr.params["p1"]) <= Rank3(pr.params["p2"]) /\ Rank3(pr.params["p2"]) <= Rank3(pr.params["p3"])}
 ====
